@@ -104,6 +104,23 @@ def mutations(M, rng):
         m = clone(); d = pick_def(m, "enum"); d["values"].append(dict(d["values"][0])); out.append(("duplicate-enum-value", m, {}))
         m = clone(); d = pick_def(m, "enum"); m["exts"].append({"kind": "enum", "name": d["name"], "values": [dict(d["values"][0])]}); out.append(("extension-duplicate-enum-value", m, {}))
     m = clone(); m["defs"].append(copy.deepcopy(rng.choice(m["defs"]))); out.append(("duplicate-type-definition", m, {}))
+    # the same NAME defined twice with DIFFERENT kinds, in both orders (a later enum / input / union / scalar / object of that name)
+    victims = [d for d in M["defs"] if d["name"] not in (M["query"], M["mutation"], M["subscription"])]
+    if victims:
+        for mk in ("enum", "input", "union", "scalar", "object"):
+            v = rng.choice(victims)
+            if v["kind"] == mk: continue
+            other = {"enum": {"kind": "enum", "name": v["name"], "values": [{"name": "DUPA", "deprecated": None}, {"name": "DUPB", "deprecated": None}]},
+                     "input": {"kind": "input", "name": v["name"], "fields": [{"name": "dupf", "type": {"n": "Int"}, "default": None}]},
+                     "union": {"kind": "union", "name": v["name"], "members": [objs[0]["name"]] if objs else []},
+                     "scalar": {"kind": "scalar", "name": v["name"]},
+                     "object": {"kind": "object", "name": v["name"], "interfaces": [], "fields": [{"name": "dupf", "args": [], "type": {"n": "Int"}, "deprecated": None, "hidden": False}]}}[mk]
+            if mk == "union" and not objs: continue
+            m = clone()
+            pos = rng.choice(["after", "before"])
+            if pos == "after": m["defs"].append(other)
+            else: m["defs"].insert(0, other)
+            out.append((f"duplicate-type-name-across-kinds/{v['kind']}-then-{mk}" if pos == "after" else f"duplicate-type-name-across-kinds/{mk}-then-{v['kind']}", m, {"withhold": []}))
     if M["directives"]:
         m = clone(); m["directives"].append(copy.deepcopy(m["directives"][0])); out.append(("duplicate-directive-definition", m, {}))
     m = clone(); m["defs"].append({"kind": "scalar", "name": "Unimplemented"}); out.append(("scalar-without-implementation", m, {"withhold": ["Unimplemented"]}))
